@@ -157,6 +157,20 @@ PROPS["C11"] = dict(
     thorough=dict(shards=16, checks=1500, timeout_s=3600),
 )
 
+PROPS["C07"] = dict(
+    pkg="props/c07", level="exploration", engine="E-model", design_ref="§4 C07",
+    technique="model-based PBT (rapid): generated Append/AppendSync/Rotate programs vs sequence oracle, incl. replays of the live log (the crash image of that instant)",
+    rule=("case = WAL program of 0..30 Append/AppendSync/Rotate/replay-now steps over nil/empty/1..200-byte records with maximum file size in {1,16,64,1Ki,1Mi,default}, "
+          "writer buffer in {8,64,4Mi} and each compression type; oracle: after Close replay = the appended sequence exactly; a replay of the live log = a prefix containing every "
+          "record up to the last AppendSync/Rotate; non-trivial = >=2 log files, >=3 records and (a live replay or a record larger than the buffer / file limit); distinct = distinct case JSON"),
+    level_text="Sequence-equality oracle over generated append programs and configurations (in-process leg); the system-call crash leg is added by the E-crash engine.",
+    level_note="in-process leg: a live replay observes exactly the bytes already handed to the kernel, i.e. the kill -9 image of that instant",
+    assumptions=COMMON_ASSUME,
+    require_labels=["live-replay", "record-larger-than-buffer-or-limit", "files=>=5"],
+    quick=dict(shards=16, checks=200),
+    thorough=dict(shards=16, checks=5000, timeout_s=3600),
+)
+
 NOT_APPLICABLE = {}
 
 
